@@ -52,7 +52,11 @@ messages do not show in what the caller receives. -/
 def planBidi (n code : Nat) : List Out := planStream n code
 
 structure ConnView where
-  /-- the shutdown signal had fired before this connection was offered to the server -/
+  /-- the shutdown signal had fired before the server's `incoming` could hand this connection to
+  the accept loop: the connection was offered after the signal — or it was queued on `incoming`
+  behind a connection whose hand-over is what fired the signal (a burst: several connections
+  ready at once, the signal becoming ready between two of them), so that accepting it can only
+  happen after the signal -/
   offeredAfterSignal : Bool
   /-- the server took the connection into service -/
   accepted : Bool
